@@ -169,14 +169,13 @@ func callSSA(th *thread, caller *frame, pos token.Pos, fn *ssa.Function, args []
 	r := th.run
 	fr := &frame{th: th, caller: caller, fn: fn}
 	{
-		name := fn.String()
 		if len(r.stubs) > 0 {
-			if sf, ok := r.stubs[name]; ok {
+			if sf, ok := r.stubs[r.eng.funcName(fn)]; ok {
 				r.noteFunc(fn, true)
 				return call(th, caller, pos, sf, args)
 			}
 		}
-		if in := r.eng.intrinsic(fn, name); in != nil {
+		if in := r.eng.intrinsic(fn); in != nil {
 			res := in(fr, args)
 			if _, ft := res.(fallThrough); !ft {
 				r.noteFunc(fn, true)
